@@ -46,7 +46,10 @@ pub fn exec(f: &[String]) -> Option<String> {
         },
         "p_conf" => match String::from_utf8(bytes) {
             Err(_) => "notutf8".into(),
-            Ok(s) => match guarded(move || humphrey_server::config::tree::parse_conf(&s, "c03.conf").is_ok()) {
+            // the third field is `w`, or `n<hex>` = the name the configuration is parsed under (it appears in error messages
+            // and is what relative includes are resolved against)
+            Ok(s) => match guarded({ let name = match f[2].strip_prefix('n') { Some(h) => String::from_utf8_lossy(&unhex(h)).into_owned(), None => "c03.conf".to_string() };
+                                     move || humphrey_server::config::tree::parse_conf(&s, &name).is_ok() }) {
                 Ok(true) => "ok".into(), Ok(false) => "err".into(), Err(_) => "PANIC".into(),
             },
         },
@@ -320,6 +323,14 @@ pub fn gen(out: &mut Out, thorough: bool, seed: u64) {
         }
     }
     for m in &ms { add(&mut cases, "p_conf", m, false); }
+    // the NAME the text is parsed under is an input too (empty, a root, a bare name, nested, non-ASCII, with dot segments),
+    // with and without include directives that have to be resolved somehow
+    for name in ["", "/", "x.conf", "dir/x.conf", "/abs/dir/x.conf", "\u{e9}.conf", "a/../b.conf", ".", "..", "dir/"] {
+        for text in ["server {\n}\n", "server {\n  include \"inc.conf\"\n}\n", "server {\n  include \"\"\n}\n",
+                     "server {\n  include \"/nonexistent/zzz\"\n}\n", "server {\n  include \"../up.conf\"\n  port 80\n}\n", "include \"x\"", "server {\n  port\n}\n"] {
+            cases.push(vec!["p_conf".to_string(), hex(text.as_bytes()), format!("n{}", hex(name.as_bytes()))]);
+        }
+    }
     // ---- random bytes, every parser
     let nrand = if thorough { 200_000 } else { 6_000 };
     for _ in 0..nrand {
